@@ -12,6 +12,8 @@ correspondence: inside Coq (vm_compute): split_lines (regex `\\r?\\n`) = split_d
 """
 import os
 
+import json
+
 from . import core, c10_oracle, c06_oracle
 from .core import cstr, cnat, clist
 from .scriptgen import parse_result_coq, chunks_coq
@@ -81,8 +83,13 @@ def run(tier):
         keep_groups = {c['group'] for c in cases if c['tag'] not in WITHOUT or c.get('base')}
         cases = [c for c in cases if c['tag'] not in WITHOUT and c['group'] in keep_groups or c.get('base')]
         chk.notes.append(f'diagnostic run: families {WITHOUT} left out')
-    payloads = [c['payload'] for c in cases]
+    payloads = [dict(c['payload'], twice=True) if i % 7 == 0 else c['payload'] for i, c in enumerate(cases)]
     impl = core.run_impl('parse_script', payloads)
+    for i, res in enumerate(impl):
+        if res.get('state_leak') and len(chk.oracle_fail) < 20:
+            chk.oracle_fail.append({'class': 'parse-results-share-state-between-calls', 'input': payloads[i], 'source': c10_oracle.payload_text(payloads[i])[:600]
+                                    if hasattr(c10_oracle, 'payload_text') else json.dumps(payloads[i])[:600],
+                                    'detail': 'the first parse result was modified in place; a second parse of the same source gave a different model'})
 
     # ---- 1. direct oracle: every layout of a program parses to the same model; repeated interleaved calls agree
     fails, stats = c10_oracle.evaluate(cases, impl)
@@ -111,8 +118,13 @@ def run(tier):
         terms, meta = [], []
         for i in pick:
             if representable(impl[i]):
-                terms.append(term_parse(payloads[i], impl[i]))
-                meta.append(('parse', i))
+                try:
+                    terms.append(term_parse(payloads[i], impl[i]))
+                    meta.append(('parse', i))
+                except ValueError as exc:           # a result that is not a script model at all
+                    if len(chk.oracle_fail) < 20:
+                        chk.oracle_fail.append({'class': 'parse-result-is-not-a-script-model', 'input': payloads[i], 'source': json.dumps(payloads[i])[:600],
+                                                'detail': str(exc), 'got': json.dumps(impl[i])[:600]})
             terms.append(term_split(payloads[i]))
             meta.append(('split', i))
             terms.append(term_logical(payloads[i]))
